@@ -193,6 +193,18 @@ func fieldMutantsJPEG(b []byte, rng *Rand) []mutant {
 					setByte(b, p+8+3*k, v, "field.tq", &out)
 				}
 			}
+			// a second frame header with other dimensions right after the first
+			if s.payload+s.plen <= len(b) {
+				for _, wh := range [][2]int{{0xFFFF, 0xFFFF}, {2048, 2048}, {1, 1}} {
+					seg := clone(b[s.off : s.payload+s.plen])
+					q := s.payload - s.off
+					if q+5 <= len(seg) {
+						seg[q+1], seg[q+2], seg[q+3], seg[q+4] = byte(wh[1]>>8), byte(wh[1]), byte(wh[0]>>8), byte(wh[0])
+						c := append(append(clone(b[:s.payload+s.plen]), seg...), b[s.payload+s.plen:]...)
+						out = append(out, mutant{c, "struct.second-sof"})
+					}
+				}
+			}
 			// change the SOF kind
 			for _, m := range []int{0xC0, 0xC1, 0xC2, 0xC3, 0xC5, 0xC9, 0xCB, 0xF7} {
 				setByte(b, s.payload-3, m, "field.sofkind", &out)
